@@ -2,6 +2,7 @@ package props
 
 import (
 	"encoding/json"
+	"errors"
 	"fmt"
 	"math"
 	"strings"
@@ -27,7 +28,11 @@ func init() {
 		Assumptions: []string{"equality classes for the set functions are computed from JSON values (strings, numbers numerically, booleans) and proto.Equal for complex elements; collections of date/time primitives are excluded from the set-function checks (their equality depends on precision/offset rules covered by C05)",
 			"intersect may return primitive elements of c as System values; it returns c's items (never the argument's equal copies), with c's type and precision, in c's order"},
 		Run:    runC10,
-		Checks: map[string]func(*core.Env, []json.RawMessage){"resource": replayC10, "envcoll": replayC10Env},
+		Checks: map[string]func(*core.Env, []json.RawMessage){"resource": replayC10, "envcoll": replayC10Env, "mixedtypes": func(env *core.Env, a []json.RawMessage) {
+			var seed uint64
+			json.Unmarshal(a[0], &seed)
+			c10MixedTypes(env, seed)
+		}},
 		Threshold: func(m *core.Merged) []string {
 			var r []string
 			for _, k := range []string{"subsetting", "partition", "where-exists", "where-eq", "where-this", "all", "select", "select-identity", "extension", "distinct", "exclude", "intersect", "multi-item", "complex-collection", "primitive-collection", "duplicates"} {
@@ -737,8 +742,95 @@ func replayC10Env(env *core.Env, a []json.RawMessage) {
 	c10EnvColl(env, i)
 }
 
+// c10MixedTypes: a collection of resources of different types (some of them bare): select(f) is the in-order
+// concatenation of f over the items whose type has an element f; it is an invalid-field error only when no item's
+// type has it. where(f.exists()) / exists(f.exists()) / all(...) follow from the same per-item outcomes.
+func c10MixedTypes(env *core.Env, seed uint64) {
+	defer env.In("mixedtypes", seed)()
+	env.Case()
+	env.Cover("mixed-type-resources")
+	rng := core.NewRng(seed, "c10-mixed")
+	types := gen.ResourceTypes()
+	var coll system.Collection
+	nameSet := map[string]bool{}
+	var names []string
+	k := 2 + rng.Intn(3)
+	for i := 0; i < k; i++ {
+		md := types[rng.Intn(len(types))]
+		var r fhir.Resource
+		if rng.Intn(3) == 0 {
+			r = gen.NewMessage(md).Interface().(fhir.Resource) // bare: every element absent
+		} else {
+			r, _ = genResource(string(md.Name()), rng.Next(), false)
+		}
+		coll = append(coll, r)
+		fs := md.Fields()
+		for j := 0; j < fs.Len(); j++ {
+			if jn := fs.Get(j).JSONName(); fs.Get(j).Message() != nil && !nameSet[jn] {
+				nameSet[jn] = true
+				names = append(names, jn)
+			}
+		}
+	}
+	// a bounded, seeded sample of the names plus those every resource has
+	pick := []string{"id", "meta", "text", "name", "status", "identifier", "subject", "code"}
+	for i := 0; i < 10 && len(names) > 0; i++ {
+		pick = append(pick, names[rng.Intn(len(names))])
+	}
+	cv := evalopts.EnvVariable("m", coll)
+	for _, f := range pick {
+		fs := model.IdentSrc(f)
+		var want system.Collection
+		invalid, decided := 0, true
+		for i := range coll {
+			ri := c10Eval(env, "%x."+fs, evalopts.EnvVariable("x", coll[i]))
+			switch {
+			case ri.IsPanic():
+				env.Violatef(fx.PanicSig("C10", ri), "`%%x.%s` on a %T => %s", fs, coll[i], ri.Short())
+				decided = false
+			case ri.IsError() && errors.Is(ri.Err, fhirpath.ErrInvalidField):
+				invalid++
+			case ri.IsError():
+				decided = false
+			default:
+				want = append(want, ri.Raw...)
+			}
+		}
+		if !decided {
+			continue
+		}
+		got := c10Eval(env, "%m.select("+fs+")", cv)
+		desc := fmt.Sprintf("%d resources of mixed types, `%%m.select(%s)` (%d of them have no such element)", len(coll), fs, invalid)
+		switch {
+		case got.IsPanic():
+			env.Violatef(fx.PanicSig("C10", got), "%s => %s", desc, got.Short())
+		case invalid == len(coll):
+			env.Cover("mixed-type-select-all-invalid")
+			if !got.IsError() {
+				env.Violatef("C10/select/mixed-types/no-error-for-unknown-element", "%s: no item has the element, observed %s", desc, trunc(got.Short(), 100))
+			}
+		case got.IsError():
+			env.Violatef("C10/select/mixed-types/error", "%s: expected the concatenation over the other items (%d items), observed %s", desc, len(want), trunc(got.Short(), 120))
+		default:
+			env.Cover("mixed-type-select")
+			if invalid > 0 && len(want) == 0 {
+				env.Cover("mixed-type-select-empty-with-invalid")
+			}
+			if ok, why := sameItems(got.Raw, orEmpty(want)); !ok {
+				env.Violatef("C10/select/mixed-types/not-the-concatenation", "%s: %s", desc, why)
+			}
+		}
+	}
+}
+
 func runC10(env *core.Env) {
 	n := 0
+	for k := 0; k < env.Size(150, 3000); k++ {
+		n++
+		if env.Mine(n) {
+			c10MixedTypes(env, env.Seed*104729+uint64(k))
+		}
+	}
 	for i := range c10EnvColls() {
 		n++
 		if env.Mine(n) {
